@@ -49,11 +49,37 @@ class Elem:
 
 
 class SpaceCheck:
-    def __init__(self, fn: FuncInfo, handler: bool) -> None:
+    def __init__(self, fn: FuncInfo, handler: bool, cls: Optional[ClassInfo] = None, depth: int = 0) -> None:
         self.fn = fn
         self.handler = handler
+        self.cls = cls
+        self.depth = depth
         self.problems: list[tuple[str, str]] = []
         self.sinks = 0
+        self.returns: list[Any] = []
+
+    def helper_return(self, name: str, args: list[ast.AST], env: dict) -> Any:
+        """space of what a private helper method of the view returns (its body analysed with the spaces of the arguments)"""
+        if self.cls is None or self.depth > 3:
+            return UNK
+        h = self.cls.lookup(name)
+        if not isinstance(h, FuncInfo) or h.kind in ('staticmethod', 'classmethod', 'property') or h is self.fn:
+            return UNK
+        sub = SpaceCheck(h, self.handler, self.cls, self.depth + 1)
+        henv: dict = {}
+        for prm, a in zip(h.params[1:], args):
+            v = self.space(a, env)
+            henv[prm] = v
+        sub.block(list(h.node.body), henv)
+        self.problems.extend(sub.problems)
+        self.sinks += sub.sinks
+        out: Any = CONST
+        for r in sub.returns:
+            if isinstance(r, Elem) or isinstance(out, Elem):
+                out = r if (isinstance(r, Elem) and isinstance(out, Elem) and r.space == out.space) or out == CONST else UNK
+            else:
+                out = join(out, r)
+        return out if sub.returns else UNK
 
     # ------------------------------------------------------------------ expressions
     def is_self_attr(self, e: ast.AST, name: str) -> bool:
@@ -93,6 +119,8 @@ class SpaceCheck:
         if e is None:
             return UNK
         if isinstance(e, ast.Constant):
+            if e.value is None:
+                return CONST              # "no position"
             if isinstance(e.value, bool) or not isinstance(e.value, int):
                 return KEY if isinstance(e.value, str) else UNK
             return CONST
@@ -318,6 +346,10 @@ class SpaceCheck:
                     for a in args:
                         self.scan(a, env)
                     return VIEW
+                if self.is_self(recv) and f.attr.startswith('_') and not f.attr.startswith('__') and not e.keywords:
+                    r = self.helper_return(f.attr, list(args), env)
+                    if r != UNK:
+                        return r
         for a in args:
             self.scan(a.value if isinstance(a, ast.Starred) else a, env)
         for k in e.keywords:
@@ -369,6 +401,9 @@ class SpaceCheck:
                     env[st.target.id] = join(cur, v)
             else:
                 self.store_target(st.target, v, env)
+            return env
+        if isinstance(st, ast.Return):
+            self.returns.append(self.space(st.value, env) if st.value is not None else CONST)
             return env
         if isinstance(st, ast.Delete):
             for t in st.targets:
@@ -458,7 +493,7 @@ def rule_idx_space(ctx: RuleContext, p: Program, rid: str) -> None:
             if '_raw_wrapper' not in src and '_raw_indexes' not in src and 'super()' not in src and c is not handler:
                 continue
             is_h = c is handler
-            sc = SpaceCheck(fn, is_h)
+            sc = SpaceCheck(fn, is_h, c)
             env: dict = {}
             params = fn.params[1:]
             if not is_h and fn.name in SEQ_PARAM_METHODS and params and fn.kind not in ('staticmethod', 'classmethod'):
